@@ -130,5 +130,6 @@ func ConcreteByte(x byte) byte       { return x }
 func ReadOnly(b []byte)              {}
 func Freeze(roots ...interface{})    {}
 func FreezeFresh(roots ...interface{}) {}
+func NewCall()                       {}
 func Unfreeze()                      {}
 func Symbolic() bool                 { return false }
